@@ -198,6 +198,9 @@ def rjLine (j : RJ) (line : String) : RJ × List String :=
       else if j.action.head? == some "F-mid" then []
       else if isQ then [] else checkDump j
     ({ j with fails := j.fails ++ (fs.map briefWordsR), prev := j.cur, action := [] }, [])
+  else if line.startsWith "durable-violation " then
+    -- sqlkill: the harness compared what handles opened after the kill see with the acknowledged actions
+    ({ j with fails := j.fails ++ [s!"atomic durable {((line.drop 18).toString.replace " " "-")}"] }, [])
   else if line == "panic" || line.startsWith "err:" || line.startsWith "sync err" || line == "rebuilt err" || line == "expire err" then
     ({ j with fails := j.fails ++ [s!"invariant unexpected-error {line}"] }, [])
   else ({ j with result := line }, [])
